@@ -403,8 +403,13 @@ func (c *Check) checkSpawnJoin(rule string) {
 func chanFieldName(v ssa.Value) string {
 	switch x := v.(type) {
 	case *ssa.UnOp:
-		if fa, ok := x.X.(*ssa.FieldAddr); ok {
-			return fieldNameOf(fa)
+		switch y := x.X.(type) {
+		case *ssa.FieldAddr:
+			return fieldNameOf(y)
+		case *ssa.FreeVar:
+			return y.Name()
+		case *ssa.Alloc:
+			return y.Comment
 		}
 	case *ssa.ChangeType:
 		return chanFieldName(x.X)
